@@ -37,6 +37,31 @@ def headerSizeOf (fhd : Nat) (magicless : Bool) : Nat :=
   let fcsId := fhd >>> 6
   minIn + (1 - single) + ZSTD_did_fieldSize.getD dictCode 0 + ZSTD_fcs_fieldSize.getD fcsId 0 + (if single == 1 && fcsId == 0 then 1 else 0)
 
+/-- the fields behind the descriptor byte (second half of ZSTD_getFrameHeader_advanced): `pos0` = first byte after the descriptor -/
+def parseFields (src : Bytes) (pos0 fhd fh : Nat) : HdrResult :=
+  let dictCode := fhd &&& 3
+  let checksum := (fhd >>> 2) &&& 1 == 1
+  let single := (fhd >>> 5) &&& 1 == 1
+  let fcsId := fhd >>> 6
+  let wlByte := src.u8 pos0
+  let windowLog := (wlByte >>> 3) + ZSTD_WINDOWLOG_ABSOLUTEMIN
+  if !single && windowLog > ZSTD_WINDOWLOG_MAX then .err .windowTooLarge
+  else
+    let ws0 := 1 <<< windowLog
+    let ws := ws0 + (ws0 >>> 3) * (wlByte &&& 7)
+    let pos1 := if single then pos0 else pos0 + 1
+    let dictID := match dictCode with
+      | 0 => 0 | 1 => src.u8 pos1 | 2 => src.le16 pos1 | _ => src.le32 pos1
+    let pos2 := pos1 + ZSTD_did_fieldSize.getD dictCode 0
+    let fcs : Option Nat := match fcsId with
+      | 0 => if single then some (src.u8 pos2) else none
+      | 1 => some (src.le16 pos2 + 256)
+      | 2 => some (src.le32 pos2)
+      | _ => some (src.le64 pos2)
+    let windowSize := if single then fcs.getD 0 else ws
+    .ok { headerSize := fh, windowSize := windowSize, fcs := fcs, dictID := dictID, checksum := checksum, singleSegment := single,
+          blockSizeMax := min windowSize ZSTD_BLOCKSIZE_MAX, descriptor := fhd, windowByte := if single then none else some wlByte }
+
 /-- ZSTD_getFrameHeader_advanced on `src[start, start+srcSize)` -/
 def getHeader (src : Bytes) (start srcSize : Nat) (magicless : Bool := false) : HdrResult :=
   let minIn := if magicless then 1 else 5
@@ -62,30 +87,7 @@ def getHeader (src : Bytes) (start srcSize : Nat) (magicless : Bool := false) : 
       let fh := headerSizeOf fhd magicless
       if srcSize < fh then .need fh
       else if fhd &&& 0x08 != 0 then .err .unsupported
-      else
-        let dictCode := fhd &&& 3
-        let checksum := (fhd >>> 2) &&& 1 == 1
-        let single := (fhd >>> 5) &&& 1 == 1
-        let fcsId := fhd >>> 6
-        let pos0 := start + minIn
-        let wlByte := src.u8 pos0
-        let windowLog := (wlByte >>> 3) + ZSTD_WINDOWLOG_ABSOLUTEMIN
-        if !single && windowLog > ZSTD_WINDOWLOG_MAX then .err .windowTooLarge
-        else
-          let ws0 := 1 <<< windowLog
-          let ws := ws0 + (ws0 >>> 3) * (wlByte &&& 7)
-          let pos1 := if single then pos0 else pos0 + 1
-          let dictID := match dictCode with
-            | 0 => 0 | 1 => src.u8 pos1 | 2 => src.le16 pos1 | _ => src.le32 pos1
-          let pos2 := pos1 + ZSTD_did_fieldSize.getD dictCode 0
-          let fcs : Option Nat := match fcsId with
-            | 0 => if single then some (src.u8 pos2) else none
-            | 1 => some (src.le16 pos2 + 256)
-            | 2 => some (src.le32 pos2)
-            | _ => some (src.le64 pos2)
-          let windowSize := if single then fcs.getD 0 else ws
-          .ok { headerSize := fh, windowSize := windowSize, fcs := fcs, dictID := dictID, checksum := checksum, singleSegment := single,
-                blockSizeMax := min windowSize ZSTD_BLOCKSIZE_MAX, descriptor := fhd, windowByte := if single then none else some wlByte }
+      else parseFields src (start + minIn) fhd fh
 
 structure BlockHdr where
   last : Bool
